@@ -2,6 +2,7 @@ import GV.Model.Merkle
 import GV.Spec.MerkleRef
 import GV.Proofs.Merkle
 import GV.Gen.GoLite
+import GV.Gen.SrcG7
 /-!
 C35 — Byron merkle roots follow the reference construction.
 
@@ -239,6 +240,24 @@ example : ∀ l1 l2 : List RBytes, l1 ≠ [] → l2 ≠ [] →
   fun l1 l2 h1 h2 h => merkle_root_binds_items Tree.leaf Tree.branch
     (fun _ _ h => by injection h) (fun _ _ _ _ h => by injection h with a b; exact ⟨a, b⟩)
     (fun _ _ _ h => by cases h) l1 l2 h1 h2 h
+
+/-- Regenerated tie: `MerkleRoot` / `merkleNode` as re-extracted from the source on every run are the
+    statements `GV.Model.Merkle` mirrors (tags, split call, recursion on items[:split] / items[split:]). -/
+theorem source_as_modelled :
+    GV.Gen.SrcG7.merkleRoot = [
+  "if len(items) == 0 { return common.Blake2b256Hash(nil) }",
+  "return merkleNode(items)"] ∧
+    GV.Gen.SrcG7.merkleNode = [
+  "if len(items) == 1 { return common.Blake2b256Hash(append([]byte{merkleLeafTag}, items[0]...)) }",
+  "split := largestPowerOfTwoBelow(len(items))",
+  "left := merkleNode(items[:split])",
+  "right := merkleNode(items[split:])",
+  "combined := make([]byte, 0, 1+len(left)+len(right))",
+  "combined = append(combined, merkleBranchTag)",
+  "combined = append(combined, left[:]...)",
+  "combined = append(combined, right[:]...)",
+  "return common.Blake2b256Hash(combined)"] := by
+  decide
 
 /-! Non-vacuity and concrete shapes (toy hash = identity, so the root spells the tree). -/
 example : merkleRoot id [[7], [8], [9]] = [1, 1, 0, 7, 0, 8, 0, 9] := by
